@@ -3,6 +3,9 @@
 import json, os
 HERE = os.path.dirname(os.path.dirname(os.path.abspath(__file__)))
 CLAIMED = {
+ "C19": dict(text="Coq theorems over the TRANSLATED predicates of src/common.py (regenerated from the source on every run) and hand models of every sweep: overlaps/contains/intersection/equal_ranges characterisations, Jaccard and coverage accumulators = pairwise intersection sums (asserts unreachable), prefix sums, get_exons well-formedness, junction/exon round trip, binary-search soundness, gene-side profile characterisation; all for unbounded lists. Every function of the property (incl. merge_ranges, split_exons, set_profiles, both read-profile constructors) is tied to the code by exhaustive small-domain + random vm_compute correspondence with set-theoretic specifications evaluated in Coq.",
+             note="Trusted: Coq kernel/vm_compute, PrimFloat primitives for bit-exact float comparison, translator tools/translate_prims.py, Python adapters. merge_ranges/split_exons/profile constructors: model = implementation by correspondence, set-theoretic spec evaluated on the enumerated domain (theorems for them are growth).",
+             technique="Coq proof over translated source + vm_compute model-vs-implementation correspondence", ref="§5 C19"),
  "C16": dict(text="Coq theorems: get_read_blocks = independent SAM block specification for every CIGAR and reference start (no bound), exons increasing/disjoint, "
                   "polyA/polyT trimming never empties the exon list and moves the tail onto the retained exon (all inputs). Tied to the code by vm_compute correspondence of "
                   "get_read_blocks, AlignmentInfo on real pysam segments, concat_gapless_blocks, add_polya_info, PolyAFinder (exhaustive CIGARs <= 3/4 ops + random).",
